@@ -723,7 +723,15 @@ func (s *Sim) Run(done func() bool) Verdict {
 				if p == lastProg {
 					roundsNoProg++
 					if roundsNoProg%8 == 0 {
-						time.Sleep(200 * time.Millisecond) // past every polling sleep in scope
+						// past every polling sleep in scope, and - growing - past any
+						// finite stall of a sleeping goroutine (a peer that answers
+						// after a minute is slow, not a livelock): 200 ms, 400 ms, ...
+						// up to days of simulated time before the verdict
+						sh := roundsNoProg / 8
+						if sh > 20 {
+							sh = 20
+						}
+						time.Sleep((200 * time.Millisecond) << uint(sh))
 					}
 					if roundsNoProg >= s.cfg.LiveRounds {
 						return Livelock
